@@ -128,7 +128,7 @@ Section Coherence.
 
   Theorem coherent d :
     d < 2 ^ 256 ->
-    node_peer_addr keccak pub compress decompress d = Some (signing_addr keccak pub d).
+    node_peer_addr keccak pub compress decompress d = Some (pubkey_addr keccak pub d).
   Proof.
     intros H. unfold node_peer_addr, host_id. rewrite unmarshal_padded by exact H.
     unfold addr_of_peerid. rewrite extract_peerid by apply compress_len.
@@ -142,6 +142,59 @@ Section Coherence.
     reflexivity.
   Qed.
 End Coherence.
+
+(* the wiring of libp2p.New as read from the source on this run *)
+Lemma wiring_now : wiring_ok = true.
+Proof. reflexivity. Qed.
+
+Section SourcesCoherence.
+  Variable keccak : bytes -> bytes.
+  Variable pub : N -> point.
+  Variable compress : point -> bytes.
+  Variable decompress : bytes -> option point.
+  Variable ks_priv : N -> N.
+  Variable ks_addr : N -> bytes.
+  Variable recover_addr : N -> bytes.
+  Hypothesis compress_len : forall P, length (compress P) = 33%nat.
+  Hypothesis decompress_compress : forall d, decompress (compress (pub d)) = Some (pub d).
+
+  (* one key, three sources, one address: the bindings are premises about the scalar at hand *)
+  Theorem coherent_sources d :
+    d < 2 ^ 256 ->
+    ks_priv d = d ->
+    ks_addr d = eth_addr keccak (pub d) ->
+    recover_addr d = eth_addr keccak (pub d) ->
+    node_peer_addr_now keccak pub compress decompress ks_priv d = Some (ks_addr d) /\
+    node_peer_addr_now keccak pub compress decompress ks_priv d = Some (recover_addr d) /\
+    ks_addr d = recover_addr d.
+  Proof.
+    intros Hd Hp Ha Hr. unfold node_peer_addr_now. rewrite wiring_now, Hp.
+    rewrite (coherent keccak pub compress decompress compress_len decompress_compress d Hd).
+    unfold pubkey_addr. rewrite Ha, Hr. repeat split; reflexivity.
+  Qed.
+
+  (* each binding is needed: a signer that hands out another scalar (a left-aligned copy of a short key, say),
+     or reports / signs for another address, makes the sources differ even though nothing else changed *)
+  Theorem sources_differ_without_binding d :
+    d < 2 ^ 256 -> ks_priv d < 2 ^ 256 ->
+    (eth_addr keccak (pub (ks_priv d)) <> ks_addr d ->
+     node_peer_addr_now keccak pub compress decompress ks_priv d <> Some (ks_addr d)) /\
+    (eth_addr keccak (pub (ks_priv d)) <> recover_addr d ->
+     node_peer_addr_now keccak pub compress decompress ks_priv d <> Some (recover_addr d)).
+  Proof.
+    intros Hd Hk. unfold node_peer_addr_now. rewrite wiring_now.
+    rewrite (coherent keccak pub compress decompress compress_len decompress_compress _ Hk). unfold pubkey_addr.
+    split; intros Hne H; apply Hne; congruence.
+  Qed.
+End SourcesCoherence.
+
+(* non-vacuity of the binding premises: the toy curve below with ks_priv = id and both address functions the
+   address of the public point *)
+Example sources_premises_satisfiable :
+  let keccak := fun m : bytes => m in
+  let pub := fun d : N => (d mod 2 ^ 256, 0) in
+  (fun d : N => d) 258 = 258 /\ (fun d => eth_addr keccak (pub d)) 258 = eth_addr keccak (pub 258).
+Proof. split; reflexivity. Qed.
 
 (* non-vacuity: a toy instance of the curve premises (identity "curve" on pairs) *)
 Example coherence_premises_satisfiable :
